@@ -92,6 +92,29 @@ def _header(node):
     return " ".join(u(node).split())
 
 
+def _ctor(val):
+    if isinstance(val, ast.Dict) or isinstance(val, ast.DictComp):
+        return "{...}"
+    if isinstance(val, (ast.List, ast.ListComp)):
+        return "[...]"
+    if isinstance(val, (ast.Set, ast.SetComp)):
+        return "{...set}"
+    if isinstance(val, ast.Call):
+        f = val.func
+        name = f.id if isinstance(f, ast.Name) else (f.attr if isinstance(f, ast.Attribute) else "?")
+        return f"{name}(...)"
+    return "..."
+
+
+def _binding(node):
+    """`name = ctor(...)` for an assignment that binds a mutable container: the CONTENT of a table is not part of
+    the fingerprint (editing a table entry is not a new source of hidden state), its existence and kind are."""
+    pairs = _assign_pairs(node)
+    if pairs and all(_is_mutable_literal(v) for _, v in pairs):
+        return " = ".join(ast.unparse(t) for t, _ in pairs) + " = " + _ctor(pairs[0][1])
+    return None
+
+
 def _short(text, n=110):
     text = " ".join(text.split())
     if len(text) <= n:
@@ -239,7 +262,7 @@ class _Scan(ast.NodeVisitor):
     def rec(self, cat, node=None, stmt=None):
         if stmt is None:
             st = self.stmt_stack[-1] if self.stmt_stack else node
-            stmt = _header(st)
+            stmt = (_binding(st) if cat in ("module-mutable", "set-create") else None) or _header(st)
         func = ".".join(self.scope) or "<module>"
         self.entries.append((cat, func, _short(stmt)))
 
